@@ -71,11 +71,31 @@ def nameOfKey (k : String) : String :=
 def isBlockedBy (p : Parent) (cur : Obj) : Bool :=
   cur.owners.any fun r => r.isCtrl && r.uid != p.uid && (match pkgRef p with | some q => r.uid != q.uid | none => true)
 
+def refOfX (j : Json) : Ref := ⟨str j "key", bool j "kinded"⟩
+
+/-- mirror of `uniqueResourceIdentifier` (GVK string + "/" + name) used by the
+reconciler to sort references, descending -/
+def refId (r : Ref) : String :=
+  let gvk :=
+    if !r.kinded then "/, Kind="
+    else if r.key.startsWith "XRD/" then "apiextensions.crossplane.io/v1, Kind=CompositeResourceDefinition"
+    else "apiextensions.crossplane.io/v1, Kind=Composition"
+  gvk ++ "/" ++ nameOfKey r.key
+
+def sortRefsDesc (l : List Ref) : List Ref := l.mergeSort (fun a b => refId a ≥ refId b)
+
+def refObsJson (r : Ref) : Json := Json.mkObj [("name", .str (nameOfKey r.key)), ("kinded", .bool r.kinded)]
+
 structure Acc where
-  store : Store
+  sys : Sys
   outs : List Json
   ok : Bool
   why : String
+
+def resStr {α : Type} : R α → String
+  | .ok _ => "ok"
+  | .err _ => "err"
+  | .crash => "crash"
 
 def runStep (a : Acc) (st : Json) : Acc :=
   let p := parentOf (obj st "parent")
@@ -85,49 +105,56 @@ def runStep (a : Acc) (st : Json) : Acc :=
   let rejects : Obj → Bool := fun o => rejB.contains o.body || rejK.contains o.key
   let fault := faultOf (arr st "faults")
   let conc := nat st "conc"
-  let s0 : Store := { a.store with log := [] }
-  let isRelease := str st "op" == "release"
-  let (s1, result, refs) :=
-    if isRelease then
-      let refs := strs st "refs"
-      let ran := (arr st "ran").map fun j => j.getBool?.toOption.getD false
-      let (s1, r) := release rejects fault p (fun i => ran.getD i false) s0 refs (List.range refs.length)
-      (s1, (match r with | .ok _ => "ok" | .err _ => "err" | .crash => "crash"), ([] : List String))
+  let s0 : Store := { a.sys.store with log := [] }
+  let op := str st "op"
+  let objs := (arr st "objs").map fun j => (⟨str j "key", nat j "body"⟩ : Desired)
+  let ranL := (arr st "ran").map fun j => j.getBool?.toOption.getD false
+  let ran : Nat → Bool := fun i => ranL.getD i false
+  let refsBefore := a.sys.refs p.uid
+  let (sys1, result, refs) : Sys × String × List Json :=
+    if op == "release" then
+      let refs := (arr st "refs").map refOfX
+      let (s1, r) := release rejects fault p ran s0 refs (List.range refs.length)
+      (⟨s1, a.sys.refs⟩, resStr r, [])
+    else if op == "reconcile" then
+      let env : Env := ⟨rejects, fault, nats st "vorder", nats st "eorder", List.range refsBefore.length, ran, sortRefsDesc⟩
+      let (sys1, r) := reconcileRev ⟨s0, a.sys.refs⟩ ⟨p, control, objs⟩ env
+      (sys1, resStr r, (sys1.refs p.uid).map refObsJson)
     else
-      let objs := (arr st "objs").map fun j => (⟨str j "key", nat j "body"⟩ : Desired)
       let (s1, r) := establish rejects fault p control s0 objs (nats st "vorder") (nats st "eorder")
       match r with
-      | .ok ks => (s1, "ok", (ks.map nameOfKey).mergeSort (· ≤ ·))
-      | .err _ => (s1, "err", [])
-      | .crash => (s1, "crash", [])
+      | .ok ks => (⟨s1, a.sys.refs⟩, "ok", (ks.mergeSort (fun x y => nameOfKey x.key ≤ nameOfKey y.key)).map refObsJson)
+      | .err _ => (⟨s1, a.sys.refs⟩, "err", [])
+      | .crash => (⟨s1, a.sys.refs⟩, "crash", [])
+  let s1 := sys1.store
   let log := if conc > 1 then
       s1.log.mergeSort (fun x y => x.key < y.key || (x.key == y.key && verbStr x.verb ≤ verbStr y.verb))
     else s1.log
   let store := s1.objs.mergeSort (fun x y => x.key ≤ y.key)
   let out := Json.mkObj [
     ("result", .str result),
-    ("refs", Json.arr (refs.map Json.str).toArray),
+    ("refs", Json.arr refs.toArray),
     ("store", Json.arr (store.map objJson).toArray),
     ("log", Json.arr (log.map logJson).toArray)]
   -- model-side monitor: all-or-nothing evaluated on the model's own run
-  let blocked :=
-    if isRelease then false
-    else (arr st "objs").any fun j =>
-      let key := str j "key"
-      match s0.get key with
+  let establishing := op == "establish" || (op == "reconcile" && (control || refsBefore.isEmpty))
+  let blocked := establishing && objs.any fun d =>
+      match s0.get d.key with
       | some cur =>
-        (control && isBlockedBy p cur) || rejK.contains key ||
-          rejB.contains (if control then nat j "body" else cur.body)
-      | none => control && (rejK.contains key || rejB.contains (nat j "body"))
+        (control && isBlockedBy p cur) || rejK.contains d.key ||
+          rejB.contains (if control then d.body else cur.body)
+      | none => control && (rejK.contains d.key || rejB.contains d.body)
   let good := !blocked || (s1.objs == s0.objs && s1.log.isEmpty && result != "ok")
-  { store := s1, outs := a.outs ++ [out], ok := a.ok && good,
+  { sys := sys1, outs := a.outs ++ [out], ok := a.ok && good,
     why := if good then a.why else "C16:partial-establish" }
 
 def handler : Handler := fun scn =>
   let objs := (arr scn "store").zipIdx.map fun (j, i) =>
     (⟨str j "key", i + 1, (arr j "owners").map refOf, nat j "body"⟩ : Obj)
   let s0 : Store := ⟨objs, objs.length + 1, []⟩
-  let a := (arr scn "steps").foldl runStep ⟨s0, [], true, ""⟩
+  let revs := (arr scn "revs").map fun j => (nat j "uid", (arr j "refs").map refOfX)
+  let refs0 : Nat → List Ref := fun u => (revs.lookup u).getD []
+  let a := (arr scn "steps").foldl runStep ⟨⟨s0, refs0⟩, [], true, ""⟩
   .ok (Json.mkObj [("steps", Json.arr a.outs.toArray)], a.ok, a.why)
 
 end Xp.C16
